@@ -115,24 +115,30 @@ def one_body_limit(rng, spec_fail, kind):
     import jax.numpy as jnp
     from jax import random as jr
     from ad_afqmc import hamiltonian, propagation, sampling, wavefunctions
-    norb, ne = 4, (2, 2) if kind == "rhf" else (2, 1)
-    eps = np.array(sorted(rng.sample(range(-10, 10), norb)), dtype=float) / 2
-    U = systems.orthonormal(rng, norb, norb)
-    h = U @ np.diag(eps) @ U.T
-    h = (h + h.T) / 2
+    norb, ne = 4, (2, 2) if kind == "rhf" else rng.choice([(2, 1), (2, 2)])
+
+    def one_body(seed_eps):
+        eps = np.array(sorted(seed_eps), dtype=float) / 2
+        U = systems.orthonormal(rng, norb, norb)
+        hh = U @ np.diag(eps) @ U.T
+        return (hh + hh.T) / 2
+    h = one_body(rng.sample(range(-10, 10), norb))
+    # unrestricted trial: a different one-body matrix for each spin (a Zeeman-like term), and below a different observable per spin
+    hb = h if kind == "rhf" else one_body(rng.sample(range(-10, 10), norb))
     h0 = 0.5
     ham = hamiltonian.hamiltonian(norb)
-    ham_data = {"h0": h0, "h1": jnp.array([h, h]), "chol": jnp.zeros((1, norb * norb)), "ene0": 0.0}
+    ham_data = {"h0": h0, "h1": jnp.array([h, hb]), "chol": jnp.zeros((1, norb * norb)), "ene0": 0.0}
     w, v = np.linalg.eigh(h)
+    wb, vb = np.linalg.eigh(hb)
     if kind == "rhf":
         trial = wavefunctions.rhf(norb, ne)
         wd = {"mo_coeff": jnp.array(v[:, :ne[0]])}
         prop = propagation.propagator_restricted(dt=0.01, n_walkers=4)
     else:
         trial = wavefunctions.uhf(norb, ne)
-        wd = {"mo_coeff": [jnp.array(v[:, :ne[0]]), jnp.array(v[:, :ne[1]])]}
+        wd = {"mo_coeff": [jnp.array(v[:, :ne[0]]), jnp.array(vb[:, :ne[1]])]}
         prop = propagation.propagator_unrestricted(dt=0.01, n_walkers=4)
-    wd["rdm1"] = jnp.array([v[:, :ne[0]] @ v[:, :ne[0]].T, v[:, :ne[1]] @ v[:, :ne[1]].T])
+    wd["rdm1"] = jnp.array([v[:, :ne[0]] @ v[:, :ne[0]].T, vb[:, :ne[1]] @ vb[:, :ne[1]].T])
     ham_data = ham.build_measurement_intermediates(ham_data, trial, wd)
     ham_data = ham.build_propagation_intermediates(ham_data, prop, trial, wd)
     pd = prop.init_prop_data(trial, wd, ham_data)
@@ -141,13 +147,16 @@ def one_body_limit(rng, spec_fail, kind):
     smp = sampling.sampler(n_prop_steps=3, n_ene_blocks=2, n_sr_blocks=1, n_blocks=1)
     O = systems.dyadic(rng, (norb, norb), 3)
     O = (O + O.T) / 2
-    obs = jnp.array([O, O])
+    Ob = O
+    if kind != "rhf":
+        Ob = systems.dyadic(rng, (norb, norb), 3)
+        Ob = (Ob + Ob.T) / 2
+    obs = jnp.array([O, Ob])
     f = wrapper(S, smp, "propagate_phaseless_ad")
     e0, dE, _ = jax.jvp(f, (0.0, obs, systems.copy_prop_data(pd)), (1.0, 0.0 * obs, tangent_like(pd)), has_aux=True)
-    want_e = h0 + sum(w[:ne[0]]) + sum(w[:ne[1]])
-    rho = v[:, :ne[0]] @ v[:, :ne[0]].T + v[:, :ne[1]] @ v[:, :ne[1]].T
-    want_d = float(np.sum(rho * O))
-    desc = {"trial": kind, "norb": norb, "nelec": ne, "orbital_energies": w.tolist()}
+    want_e = h0 + sum(w[:ne[0]]) + sum(wb[:ne[1]])
+    want_d = float(np.sum((v[:, :ne[0]] @ v[:, :ne[0]].T) * O) + np.sum((vb[:, :ne[1]] @ vb[:, :ne[1]].T) * Ob))
+    desc = {"trial": kind, "norb": norb, "nelec": ne, "orbital_energies": [w.tolist(), wb.tolist()], "spin_dependent_h1_and_observable": kind != "rhf"}
     if abs(float(np.real(e0)) - want_e) > 1e-9:
         spec_fail.append(("propagate_phaseless_ad", "one-body limit: the energy equals h0 + sum of occupied orbital energies", {**desc, "got": float(np.real(e0)), "want": float(want_e)}))
     if abs(float(np.real(dE)) - want_d) > 1e-6:
